@@ -159,8 +159,13 @@ def float_of_code(c, n_frac):
     return float(Fraction(c) * core.pow2(-n_frac))
 
 
+def f_ordered(a):
+    """the same logical 2-d array in Fortran (column-major) memory order"""
+    return a.T.copy().T
+
+
 def make_fxp(P, signed, n_word, n_frac, codes=None, shape=(), cfg=None, status=None, vdtype=None,
-             scale=1, bias=0, callbacks=None):
+             scale=1, bias=0, callbacks=None, forder=False):
     """An Fxp whose attributes satisfy the representation invariant `wf`, with the given codes."""
     Fxp = P.Fxp
     x = Fxp.__new__(Fxp)
@@ -179,6 +184,8 @@ def make_fxp(P, signed, n_word, n_frac, codes=None, shape=(), cfg=None, status=N
                 x.real = A.SGen([fl[0]], _np.zeros((), dtype=int), A.F64) if P.symbolic else _np.float64(fl[0])
         else:
             x.real = P.arr(fl, dtype=object if wide else 'float64', shape=tuple(shape))
+        if forder and len(tuple(shape)) == 2:
+            x.val = f_ordered(x.val); x.real = f_ordered(x.real)
         if scale != 1 or bias != 0:
             x.real = x.real * scale + bias
         x.imag = 0
